@@ -85,6 +85,10 @@ fn wrap(inner: &[Value]) -> Vec<Value> {
         out.push(Value::TaggedUnion(3, Box::new(a.clone())));
         out.push(Value::Record(vec![("k".to_symbol(), a.clone())]));
         for b in inner.iter().take(12) {
+            // records are ordered lists of (key, value): keys out of order, repeated, non-ASCII
+            out.push(Value::Record(vec![("z".to_symbol(), a.clone()), ("a".to_symbol(), b.clone())]));
+            out.push(Value::Record(vec![("x".to_symbol(), a.clone()), ("x".to_symbol(), b.clone())]));
+            out.push(Value::Record(vec![("é".to_symbol(), b.clone()), ("".to_symbol(), a.clone()), ("b".to_symbol(), b.clone())]));
             out.push(Value::Tuple(vec![a.clone(), b.clone()]));
             out.push(Value::Array(vec![b.clone(), a.clone(), b.clone()]));
         }
@@ -200,14 +204,28 @@ fn sched_violation(tasks: &[(f64, i64)], last: u64) -> Option<String> {
     None
 }
 fn sched_cases() -> Vec<(Vec<(f64, i64)>, u64)> {
-    vec![
+    let mut out = vec![
         (vec![(3.0, 1), (5.0, 2)], 8),
         (vec![(2.0, 1), (2.0, 2), (2.0, 3)], 4),
         (vec![(4.0, 1), (2.0, 2), (3.0, 3), (2.0, 4)], 6),
         (vec![(2.5, 1), (2.9, 2), (3.1, 3)], 6),
         (vec![(1.0, 1)], 3),
         (vec![(6.0, 1), (1.0, 2), (6.0, 3), (1.0, 4), (3.0, 5)], 8),
-    ]
+    ];
+    // every scheduling order of up to 5 pending tasks over 4 distinct sample times (1364 cases), and up to
+    // 3 tasks over fractional times
+    for n in 1..=5usize {
+        let mut idx = vec![0usize; n];
+        loop {
+            out.push((idx.iter().enumerate().map(|(k, &t)| ((t + 1) as f64, k as i64 + 1)).collect(), 6));
+            let mut k = 0;
+            while k < n { idx[k] += 1; if idx[k] < 4 { break; } idx[k] = 0; k += 1; }
+            if k == n { break; }
+        }
+    }
+    let fr = [1.5, 2.0, 2.9, 3.0];
+    for a in fr { for b in fr { for c in fr { out.push((vec![(a, 1), (b, 2), (c, 3)], 5)); } } }
+    out
 }
 
 // ---- delay cells on the VM (property C05): run a program and compare with the reference meaning of delay -------
@@ -270,8 +288,80 @@ fn heap_after(src: &str, n: usize) -> Result<(usize, usize), String> {
     Ok((a, machine.heap.len()))
 }
 
+// ---- syntax tree clause of C13: leaves of the real parse_cst tree vs the syntax tokens ------------------------
+fn cst_violation(src: &str) -> Option<String> {
+    use mimium_lang::compiler::parser::green::GreenNode;
+    use mimium_lang::compiler::parser::{GreenNodeArena, GreenNodeId, TokenKind, parse_cst, preparse, tokenize};
+    fn collect(arena: &GreenNodeArena, id: GreenNodeId, out: &mut Vec<usize>) {
+        match arena.get(id) {
+            GreenNode::Token { token_index, .. } => out.push(*token_index),
+            GreenNode::Internal { children, .. } => children.iter().for_each(|&c| collect(arena, c, out)),
+        }
+    }
+    let src = src.to_string();
+    let r = std::panic::catch_unwind(move || {
+        let tokens = tokenize(&src);
+        let expected: Vec<usize> = tokens.iter().enumerate()
+            .filter(|(_, t)| !t.is_trivia() && t.kind != TokenKind::Eof).map(|(i, _)| i).collect();
+        let pre = preparse(&tokens);
+        let (root, arena, _t, _e) = parse_cst(tokens, &pre);
+        let mut leaves = vec![];
+        collect(&arena, root, &mut leaves);
+        (leaves, expected)
+    });
+    match r {
+        Err(_) => None, // a panic is property C04's concern, not C13's
+        Ok((leaves, expected)) => (leaves != expected).then(|| format!(
+            "Parser::parse::ensures[tree leaves == syntax tokens in source order] leaves={leaves:?} expected={expected:?}")),
+    }
+}
+fn cst_corpus() -> Vec<String> {
+    let mut out: Vec<String> = [
+        "fn dsp(){0.0}", "let f = |x, y: float| -> float { x + y }", "|_| 1", "|(a, b)| a", "fn dsp(a:float)->float{ a |> f }",
+        "let (a,b) = (1,2)\nfn dsp(){ if (a>0) b else {a} }", "mod m { pub fn f(x){x} }\nuse m::f\nfn dsp(){ f(1.0) }",
+        "type rec L = N | C(float, L)\nfn dsp(){ match C(1.0,N) { N => 0.0, C(x, _) => x } }",
+        "#stage(macro)\nfn m(){ `(1.0) }\n#stage(main)\nfn dsp(){ m!() }", "let r = {a=1, b=2.0}\nfn dsp(){ r.a + self }",
+        "fn dsp(){ [1,2,3][0] + delay(10, 1.0, 2) }", "fn f(x = 1.0, y) { x..y }", "include(\"a.mmm\")\nfn dsp(){ $x }",
+    ].iter().map(|s| s.to_string()).collect();
+    let alphabet = ["x", "_", "1", "1.5", "|", ",", "(", ")", "{", "}", "[", "]", " ", "\n", "fn", "let", "=", ".", "\"s\"", "§",
+        ":", "->", "=>", "+", "-", "if", "else", "match", "`", "$", "@", "!", "::", "..", "mod", "use", "pub", "type", "#", ";"];
+    let mut frontier: Vec<String> = vec![String::new()];
+    for _ in 0..3 {
+        let mut next = vec![];
+        for s in &frontier { for a in alphabet { next.push(format!("{s}{a}")); } }
+        out.extend(next.iter().cloned());
+        frontier = next;
+    }
+    // statement-level contexts around the 2-token fragments
+    let two: Vec<String> = alphabet.iter().flat_map(|a| alphabet.iter().map(move |b| format!("{a} {b}"))).collect();
+    for f in &two {
+        out.push(format!("fn dsp(){{ {f} }}"));
+        out.push(format!("let a = |{f}| 1"));
+        out.push(format!("fn f({f}){{0}}"));
+        out.push(format!("let y = g({f})"));
+        out.push(format!("match v {{ {f} => 1 }}"));
+    }
+    out
+}
+
 fn main() {
     let args: Vec<String> = std::env::args().collect();
+    if args.get(1).map(|s| s.as_str()) == Some("cst-run") {
+        match cst_violation(&args[2]) { Some(c) => println!("FAILS {c}"), None => println!("HOLDS") }
+        return;
+    }
+    if args.get(1).map(|s| s.as_str()) == Some("cst-search") {
+        std::panic::set_hook(Box::new(|_| {}));
+        let corpus = cst_corpus();
+        for (i, src) in corpus.iter().enumerate() {
+            if let Some(c) = cst_violation(src) {
+                println!("FOUND src={src:?} clause={c} tried={}", i + 1);
+                return;
+            }
+        }
+        println!("NONE tried={}", corpus.len());
+        return;
+    }
     if args.get(1).map(|s| s.as_str()) == Some("boxed-search") || args.get(1).map(|s| s.as_str()) == Some("boxed-run") {
         let only: Option<usize> = args.get(2).and_then(|s| s.parse().ok());
         for (i, (name, src)) in boxed_programs().iter().enumerate() {
